@@ -98,8 +98,8 @@ func runC02(c *Ctx) {
 				}
 				comprLeaves = append(comprLeaves, l)
 			}
-			if hasDrainDisposition(fn) {
-				c.Check(emptyWhenWithoutBody(fn, meta, comprF, call), "C02.1", FuncName(fn), "meta.compression-empty-without-body", call.Pos(),
+			if hasDrainDisposition(p, fn) {
+				c.Check(emptyWhenWithoutBody(p, fn, meta, comprF, call), "C02.1", FuncName(fn), "meta.compression-empty-without-body", call.Pos(),
 					"on the paths where the request body is drained instead of forwarded, meta.compression is reset to \"\" before the headers are written",
 					"a request whose body is not forwarded (everything is in the request line) still announces the negotiated compression: Content-Encoding on zero body bytes, which are not a valid compressed stream")
 			}
@@ -601,18 +601,7 @@ func emptyOnlyWithoutBody(p *Prog, fn *ssa.Function, meta ssa.Value, fld *types.
 		return false
 	}
 	// conditions under which the body is drained
-	drainConds := map[ssa.Value]bool{}
-	for _, call := range Calls(fn) {
-		sc := call.Common().StaticCallee()
-		if sc == nil || N(sc) != "drainBody" {
-			continue
-		}
-		for _, f := range FactsAt(call.Block()) {
-			if f.Truth {
-				drainConds[f.Cond] = true
-			}
-		}
-	}
+	drainConds := drainConditions(p, fn)
 	if len(drainConds) == 0 {
 		return false
 	}
@@ -645,22 +634,55 @@ func emptyOnlyWithoutBody(p *Prog, fn *ssa.Function, meta ssa.Value, fld *types.
 	return n > 0
 }
 
-func hasDrainDisposition(fn *ssa.Function) bool {
+func hasDrainDisposition(p *Prog, fn *ssa.Function) bool {
+	return len(drainConditions(p, fn)) > 0
+}
+
+// drainConditions: the values of fn under whose truth the request body is drained instead of
+// forwarded - tested in fn itself, or handed as a boolean argument to a module helper that
+// drains under that parameter.
+func drainConditions(p *Prog, fn *ssa.Function) map[ssa.Value]bool {
+	out := map[ssa.Value]bool{}
 	for _, call := range Calls(fn) {
-		if sc := call.Common().StaticCallee(); sc != nil && N(sc) == "drainBody" {
+		sc := call.Common().StaticCallee()
+		if sc == nil {
+			continue
+		}
+		if N(sc) == "drainBody" {
 			for _, f := range FactsAt(call.Block()) {
 				if f.Truth {
-					return true
+					out[f.Cond] = true
+				}
+			}
+			continue
+		}
+		if !p.inModule(sc) {
+			continue
+		}
+		for _, inner := range Calls(sc) {
+			isc := inner.Common().StaticCallee()
+			if isc == nil || N(isc) != "drainBody" {
+				continue
+			}
+			for _, f := range FactsAt(inner.Block()) {
+				pr, ok := f.Cond.(*ssa.Parameter)
+				if !ok || !f.Truth {
+					continue
+				}
+				for i, q := range sc.Params {
+					if q == pr && i < len(call.Common().Args) {
+						out[call.Common().Args[i]] = true
+					}
 				}
 			}
 		}
 	}
-	return false
+	return out
 }
 
 // emptyWhenWithoutBody: between the last unconditional store to meta.fld and the use, there is
 // a branch on a condition that also guards the draining of the body whose true edge stores "".
-func emptyWhenWithoutBody(fn *ssa.Function, meta ssa.Value, fld *types.Var, use ssa.Instruction) bool {
+func emptyWhenWithoutBody(p *Prog, fn *ssa.Function, meta ssa.Value, fld *types.Var, use ssa.Instruction) bool {
 	u, ok := meta.(*ssa.UnOp)
 	if !ok {
 		return false
@@ -669,16 +691,7 @@ func emptyWhenWithoutBody(fn *ssa.Function, meta ssa.Value, fld *types.Var, use 
 	if !ok {
 		return false
 	}
-	drainConds := map[ssa.Value]bool{}
-	for _, call := range Calls(fn) {
-		if sc := call.Common().StaticCallee(); sc != nil && N(sc) == "drainBody" {
-			for _, f := range FactsAt(call.Block()) {
-				if f.Truth {
-					drainConds[f.Cond] = true
-				}
-			}
-		}
-	}
+	drainConds := drainConditions(p, fn)
 	var stores []*ssa.Store
 	for _, ref := range *al.Referrers() {
 		if fa, ok := ref.(*ssa.FieldAddr); ok && FieldOfAddr(fa) == fld {
